@@ -222,6 +222,28 @@ def check_genuine(chunk_index, nchunks):
                             viol.append(("remote-traceback-leaked", label))
                 if len(viol) > 40:
                     return n, viol, classes
+    # ---- two hops: an exception that was received and propagates out of a request this side is serving is sent on
+    #      (relayed callbacks, rpyc over rpyc): the final requester must still get the same class
+    first = []
+    recs = sender_records(instances, True, True)
+    for idx, ((label, e), (k, rec)) in enumerate(zip(instances, recs)):
+        if idx % nchunks != chunk_index or k != R.EXCEPTION:
+            continue
+        (how, got), left = receive(rec, False, False)
+        if how == "raised" and isinstance(got, type(e)) and isinstance(got, BaseException):
+            first.append((label, got, type(e)))
+    recs2 = sender_records([(lab, g) for lab, g, _ in first], True, True)
+    for (label, g, cls), (k, rec) in zip(first, recs2):
+        n += 1
+        if k != R.EXCEPTION:
+            viol.append(("second-hop:sender-did-not-answer-with-exception:%s" % cls.__name__, label))
+            continue
+        (how, got2), left = receive(rec, False, False)
+        if how != "raised" or not isinstance(got2, cls):
+            viol.append(("second-hop:class-not-preserved:class=%s:got=%s" % (cls.__name__, type(got2).__name__),
+                         "%s relayed once more arrived as %r" % (label, got2)))
+        elif tuple(got2.args) != normalised_args(g):
+            viol.append(("second-hop:args-differ:class=%s" % cls.__name__, "%s: %r vs %r" % (label, got2.args, g.args)))
     return n, viol, classes
 
 
